@@ -369,6 +369,12 @@ func (e *Exec) applyContract(s *State, f *Frame, con *Contract, sig *types.Signa
 	}
 	results := resultList(res, cfn.Signature)
 	rt := cfn.Signature.Results()
+	for i := 0; i < rt.Len() && i < len(results); i++ {
+		// a function-typed result is known by the name the contract gives it (extern key "funcvalue:<name>")
+		if fv, ok := results[i].(*FuncV); ok && fv.Fn == nil && rt.At(i).Name() != "" {
+			fv.Name = rt.At(i).Name()
+		}
+	}
 	for i := 0; i < rt.Len(); i++ {
 		if i < len(results) {
 			post[rt.At(i)] = results[i]
